@@ -58,6 +58,7 @@ func c14(c *Ctx) {
 		"(strength) the strength validators, folded at their boundaries, reject exactly below the library minimums (AES key in {16,32}; RSA modulus >= 2048 and e == 65537; ECDSA hash no weaker than the curve; HKDF-PRF key >= 32 with SHA-256/512; HMAC-PRF key >= 16; AES-CMAC-PRF key == 32; HMAC under C04) and every primitive constructor of those key types passes through its validator on every success path. " +
 		"(keypair) every validate…PrivateKey function compares, on every success path, the public key derived from the private material with the stored public key; " +
 		"(bigint) every narrowing of a big integer parsed from key material (Int64/Uint64) is dominated by the matching IsInt64/IsUint64 check on the same value, so oversized RSA exponents cannot be truncated into acceptable ones. " +
+		"(fixedkey) crypto/ed25519 panics on key material of the wrong length: the Ed25519 key constructors, folded with the length of their key-material argument bound to 0, 31, 32, 33 and 64, succeed for 32 only. " +
 		"Not decided: absence of run-time panics in general (index arithmetic in loops, stdlib), self-consistency of created primitives (behavioural)."
 	c14Validate(c)
 	c14Enums(c)
@@ -66,6 +67,7 @@ func c14(c *Ctx) {
 	c14BigInt(c)
 	c14KeyPair(c)
 	c14NilMsg(c)
+	c14FixedKey(c)
 }
 
 // ---------------------------------------------------------------- validate
@@ -716,4 +718,52 @@ func c14KeyPair(c *Ctx) {
 	}
 	r.Counts["private_key_validators"] = n
 	r.Min("C14.keypair", 3)
+}
+
+// c14FixedKey: constructors whose key material has one legal length, handed
+// later to stdlib functions that panic on any other (crypto/ed25519.Verify,
+// NewKeyFromSeed). The constructor is folded with the length of the material
+// bound to probe values: it must fail for every length but the legal one.
+func c14FixedKey(c *Ctx) {
+	p, r := c.P, c.R
+	table := []struct {
+		rel, fn string
+		size    int64
+	}{
+		{"signature/ed25519", "NewPublicKey", 32},
+		{"signature/ed25519", "NewPrivateKey", 32},
+		{"signature/ed25519", "NewPrivateKeyWithPublicKey", 32},
+	}
+	for _, row := range table {
+		f := p.PkgFunc(row.rel, row.fn)
+		key := fmt.Sprintf("C14.fixedkey/%s.%s", row.rel, row.fn)
+		if f == nil || len(f.Params) == 0 {
+			r.AnchorMissing("C14.fixedkey", row.rel+"."+row.fn)
+			continue
+		}
+		mat := f.Params[0]
+		bad := ""
+		for _, n := range []int64{0, row.size - 1, row.size, row.size + 1, 2 * row.size} {
+			env := consteval.Env{consteval.LenKey(mat): consteval.C(n)}
+			// secretdata.Bytes material: its Len() method
+			allInstrs(f, func(ins ssa.Instruction) {
+				if call, ok := ins.(*ssa.Call); ok && strings.HasSuffix(guard.CalleeName(&call.Call), "secretdata.Bytes).Len") && len(call.Call.Args) == 1 && guard.Strip(call.Call.Args[0]) == ssa.Value(mat) {
+					env[call] = consteval.C(n)
+				}
+			})
+			ev := consteval.New()
+			ev.MaxDepth, ev.Fuel = 2, 100000
+			outs, ok := ev.Eval(f, nil, env)
+			can := !ok
+			for _, o := range outs {
+				if !o.IsErr() && !guard.DefinitelyFails(o.Ret) {
+					can = true
+				}
+			}
+			if can != (n == row.size) {
+				bad = fmt.Sprintf("with %d bytes of key material the constructor can succeed=%v (legal length: %d); crypto/ed25519 panics on other lengths when the key is used", n, can, row.size)
+			}
+		}
+		r.Check(bad == "", "C14.fixedkey", key, p.FuncPos(f), bad, fmt.Sprintf("succeeds for %d bytes only (probed 0, %d, %d, %d, %d)", row.size, row.size-1, row.size, row.size+1, 2*row.size))
+	}
 }
